@@ -110,3 +110,16 @@ Proof.
     + subst. reflexivity.
     + replace (body =? 1) with false by lia. destruct (body =? 0); auto.
 Qed.
+
+(* whatever the server answers, every wrapper - also the ones that iterate over or index the
+   JSON result - ends as documented: a value, ApiError with the status, or ApiConnectionError *)
+Theorem resp_never_escapes gen spec k iterates r :
+  mg_prop_ok spec (MResp k iterates r) (mg_model gen (MResp k iterates r)) = true.
+Proof.
+  unfold mg_prop_ok, mg_model. destruct (classify r) eqn:E; try reflexivity.
+  all: try (destruct iterates; reflexivity).
+  - apply N.eqb_refl.
+  - exfalso. destruct r as [|code body]; [discriminate|]. unfold classify in E.
+    destruct ((400 <=? code) && (code <? 600)); [discriminate|].
+    destruct (body =? 1); [discriminate|]. destruct (body =? 0); discriminate.
+Qed.
